@@ -107,6 +107,12 @@ def targeted_discs(rng):
                 {3: G.Patch("Q3", [4]), 7: G.Patch("Q7", [9])}, {4: G.Partial("R4", [11, None, 2, None]), 9: G.Partial("R9", [None, 30, None, None])},
                 {11: G.Sample("Kick", W(rng, 5000), mode=0), 2: G.Sample("Snare", W(rng, 4608), mode=2), 30: G.Sample("PadOne", W(rng, 4700), mode=5, cluster_top=1)})
     out.append(("scattered-slots", d3))
+    # the highest indices of every area (S173: a pointer is valid up to ITS area's limit - 0x1000 partials, 0x400 patches,
+    # 0x200 performances, 0x2000 samples)
+    d3h = G.Disc([G.Volume("VOL", [511])], {511: G.Performance("Top", [1023, 2])}, {1023: G.Patch("Q1023", [4095, 1030]), 2: G.Patch("Q2", [2000])},
+                 {4095: G.Partial("R4095", [8191, None, None, None]), 1030: G.Partial("R1030", [None, 4100, None, None]), 2000: G.Partial("R2000", [None, None, 7, None])},
+                 {8191: G.Sample("TopSmp", W(rng, 700), mode=0), 4100: G.Sample("MidSmp", W(rng, 4608), mode=2), 7: G.Sample("LowSmp", W(rng, 50), mode=5)}, num_performances=512)
+    out.append(("highest-indices", d3h))
     # performances referenced by more than one volume next to unreferenced ones (S62): as many / more duplicate
     # references than orphans, so a count of references cannot stand in for the set of referenced performances
     for tag, vols, nperf in (("shared1+orphan1", [[0], [0, 2]], 5), ("shared2+orphan1", [[0, 1], [1, 0]], 3), ("shared2+orphan2", [[1, 2], [2, 1], []], 4)):
